@@ -78,19 +78,19 @@ def requestOf (s : St) (t : Nat) : Option (Packet × Nat × Nat × Ctx) :=
     | .request t' p remote localConn ctx => if t' == t then some (p, remote, localConn, ctx) else none
     | _ => none
 
-/-- socket and destination of the last `reply` event, if the log ends with one -/
-def lastReply (s : St) : Option (Nat × Nat) :=
+/-- socket, destination and octets of the last `reply` event, if the log ends with one -/
+def lastReply (s : St) : Option (Nat × Nat × Bytes) :=
   match s.log.getLast? with
-  | some (.reply _ conn addr) => some (conn, addr)
+  | some (.reply _ conn addr w) => some (conn, addr, w)
   | _ => none
 
-/-- reply written by the handler for task `t`: `conn>addr:conn:auth:code`, or nothing when Encode refuses -/
-def replyObs (conn peer : Nat) (req : Packet) (reqWire : Bytes) (code : Nat) : String :=
-  if code = 0 then "" else
-  let resp : Packet := { response req code with attrs := [⟨18, "reply".toUTF8.toList⟩] }
-  match encode md5 resp with
-  | .ok w => s!":{conn}>peer{peer}:conn{conn}:auth={boolStr (isAuthenticResponse md5 w reqWire req.secret)}:code={(w.getD 0 0).toNat}"
-  | _ => ""
+/-- the attributes the lab's handlers add to their reply (harness/cmd/vh/c07.go: `resp.Add(18, "reply")`) -/
+def labReplyAttrs : Attrs := [⟨18, "reply".toUTF8.toList⟩]
+
+/-- reply written by the handler for task `t`, as the model's `reply` event has it (socket, destination,
+    octets): `conn>addr:conn:auth:code` -/
+def replyObs (conn peer : Nat) (req : Packet) (reqWire : Bytes) (w : Bytes) : String :=
+  s!":{conn}>peer{peer}:conn{conn}:auth={boolStr (isAuthenticResponse md5 w reqWire req.secret)}:code={(w.getD 0 0).toNat}"
 
 /-- the number after `@` in an observation like `f=err@1` -/
 def atServe (tok : String) : Option Nat :=
@@ -188,14 +188,15 @@ def scenarioCase (args : List String) (impl : String) : Verdict :=
                   let req := match classify md5 cfg peer d with
                     | .handle _ p => p
                     | _ => ⟨0, 0, [], [], []⟩
-                  -- `Write` reaches `conn.WriteTo` only when `Encode` succeeded
-                  let writes := replyObs 0 0 req d code != ""
-                  let sR := if writes then (step md5 cfg s (.taskReply t)).getD s else s
-                  let (rconn, raddr) := match (if writes then lastReply sR else none) with
-                    | some ca => ca
-                    | none => (s.connOf.getD i 0, s.peerOf t)
+                  -- `Write` reaches `conn.WriteTo` only when `Encode` succeeded: the model's `taskReply` step is
+                  -- enabled exactly then (code 0 = the handler does not reply: no code is 0, the encoder refuses)
+                  let (sR, robs) := match (if code = 0 then none else step md5 cfg s (.taskReply t code labReplyAttrs)) with
+                    | some sR => (sR, match lastReply sR with
+                        | some (rconn, raddr, w) => replyObs rconn raddr req d w
+                        | none => "")
+                    | none => (s, "")
                   (match step md5 cfg sR (.taskFinish t) with
-                   | some s' => next { is with st := s' } ("F=done" ++ replyObs rconn raddr req d code ++ s!":cd={boolStr s.ctxCancelled}")
+                   | some s' => next { is with st := s' } ("F=done" ++ robs ++ s!":cd={boolStr s.ctxCancelled}")
                    | none => next is "F=noop")
                 | none => next is "F=noop")
              | _ => next is "F=noop")
